@@ -6,6 +6,7 @@ import ElfioVerif.Props.C03
 set_option linter.unusedSimpArgs false
 namespace ElfioVerif.C06
 open Gen
+open Sv
 
 /-! ### F13, machine-checked: a second save of the same object gives different bytes -/
 
@@ -173,7 +174,7 @@ theorem saveTail_congr {o o' : Obj} {os : OStream} {h0 : Bytes} {segs1 done : Li
     (hl : layoutLoose o.cls (putBack segs1 done) lay'.secs 0 lay'.pos [] =
       layoutLoose o.cls (putBack segs1 done) lay.secs 0 lay.pos []) :
     saveTail o' os h0 segs1 lay' done = saveTail o os h0 segs1 lay done := by
-  unfold saveTail
+  unfold saveTail saveWrite
   simp only [hc, he, ht, hs, hl]
 
 theorem preRes_id (o : Obj) (h : ∀ b ∈ o.secs, b.Settled) : preRes o = o := by
